@@ -1446,8 +1446,12 @@ class Interp:
     def compare(self, op, a, b, label=""):
         if isinstance(op, (ast.Is, ast.IsNot)):
             if isinstance(a, Unknown) or isinstance(b, Unknown):
+                other, u_ = (b, a) if isinstance(a, Unknown) else (a, b)
                 if a is b:
                     r = True
+                elif other is None and not u_.neg and u_.sym.startswith(_NEVER_NONE):
+                    # the value of a constructor / conversion that never returns None (tuple(x), str(x), len(x), an f-string …)
+                    r = False
                 else:
                     sa = a.sym if isinstance(a, Unknown) else repr(a)
                     sb = b.sym if isinstance(b, Unknown) else repr(b)
@@ -2037,7 +2041,7 @@ class Interp:
                 if isinstance(x, ast.AST):
                     return ExtRef(f"ast.{type(x).__name__}")
                 if _opaque(x):
-                    return self.fresh("type")
+                    return Unknown(f"type({_sym(x)})")      # the same value has the same type every time it is asked
                 return ExtRef(type(x).__name__)
             if name == "str":
                 x = args[0] if args else ""
@@ -2660,6 +2664,7 @@ class _DictView:
 
 
 _MISSING = object()
+_NEVER_NONE = ("tuple(", "list(", "set(", "frozenset(", "sorted(", "dict(", "str(", "repr(", "len(", "int(", "float(", "abs(", "hash(", "f⟨", "type(", "bool(")
 _LAZY_AWARE = {"next", "iter", "any", "all"}
 
 
